@@ -81,6 +81,10 @@ void SubgraphT<N>::decrementDependentCounters() {
   for (N* node : nodes_) {
     for (Node* const dependent : node->dependents_) {
       dependent->numPredecessors_--;
+      // The removed node no longer counts as an incomplete predecessor of its dependents.
+      if (!node->isCompleted() && !dependent->isCompleted()) {
+        dependent->numIncompletePredecessors_.fetch_sub(1, std::memory_order_relaxed);
+      }
     }
     removeNodeFromBiPropSet(node);
   }
